@@ -782,9 +782,13 @@ def coverage_phase(res):
     with cov:
         for text, _ in CORPUS + CORPUS_KNOWN:
             impl_get_ast(text)
+        import tatsu.exceptions
         for texts, lat, target, _ in TABLE_CORPUS:
-            impl_complement(texts, set(lat), target)
-            impl_loop_abort(texts, set(lat))
+            try:
+                impl_complement(texts, set(lat), target)
+                impl_loop_abort(texts, set(lat))
+            except tatsu.exceptions.ParseException:
+                pass        # reported by the table corpus check
         impl_complement({1: '1', 2: '#9'}, set(), 2)          # KeyError
         for card in COVERAGE_CARDS:
             impl_split(card)
@@ -1194,6 +1198,19 @@ def run_complement(res, rng, n_tab):
             res.count('complement:tables-with-facets')
         if any('+' in t for t in texts.values()):
             res.count('complement:tables-with-plus-sign')
+        unparsed = {cid: impl_get_ast(t) for cid, t in texts.items()}
+        unparsed = {cid: o for cid, o in unparsed.items() if o[0] != 'ok'}
+        if unparsed:
+            # a cell of the table is rejected by get_ast (reported by the
+            # expression sweeps when it is well formed): no table to convert
+            res.count('complement:table-with-unparsable-cell')
+            if expected is not None:
+                res.violation('impl-violation',
+                              f'corpus table {texts}: cells rejected by '
+                              f'get_ast: {unparsed}',
+                              {'input': {'cells': texts, 'target': target},
+                               'observed': unparsed}, found_input=True)
+            continue
         out = impl_complement(texts, lattice, target)
         if expected is not None and out != ('ok', expected):
             res.violation('impl-violation',
